@@ -397,6 +397,28 @@ Recover ==
                              !.hTip = t[2], !.fhTip = f[2]]
      IN  Finish(w, Act("Recover", 0, <<>>, 0, IF t[1] = ERR \/ f[1] = ERR THEN "err" ELSE "ok"))
 
+\* Header import at start-up (neutrino.go ChainService.Start): block and filter
+\* headers of the honest main chain are appended to the stores from outside
+\* the block manager (chainimport), then ResetHeaderState re-reads the tips.
+\* Only before any peer is known.
+ImportReset(k) ==
+  /\ Tick /\ UNCHANGED <<nfaults, ncrashes, down>>
+  /\ \A p \in Peers : ~conn[p]
+  /\ LET t == BTip(W)
+         f == FTip(W)
+     IN
+     /\ t[1] # ERR /\ f[1] # ERR /\ f[2] = t[2]        \* import needs level stores
+     /\ t[2] + 1 + k <= Len(MainChain)
+     /\ \A h \in 0..t[2] : ReadB(W, h) = MainChain[h + 1]
+     /\ LET new == [j \in 1..k |-> MainChain[t[2] + 1 + j]]
+            es  == [j \in 1..k |-> <<new[j], t[2] + j>>]
+            w1  == WriteB(W, es)
+            w2  == [w1 EXCEPT !.ffile = @ \o new, !.ftip = new[k]]
+            t2  == BTip(w2)
+            w3  == [w2 EXCEPT !.hl = << <<t2[1], t2[2]>> >>, !.nextCp = FindNextCp(t2[2]),
+                              !.hTip = t2[2], !.fhTip = FTip(w2)[2]]
+        IN  Finish(w3, Act("ImportReset", 0, new, k, "ok"))
+
 \* Process restart: newBlockManager on the persisted stores; peers are gone.
 Restart ==
   /\ ~down /\ nrestarts < MaxRestarts /\ nrestarts' = nrestarts + 1
@@ -437,6 +459,7 @@ Next ==
   \/ \E p \in Peers : \E k \in 1..Len(Batches) : \E fw \in {0, 1} : Headers(p, Batches[k], fw)
   \/ \E p \in Peers : \E k \in 1..Len(Batches) : \E cb \in 0..4 : HeadersCrash(p, Batches[k], cb)
   \/ \E k \in 1..MaxCF : WriteCF(k)
+  \/ \E k \in 1..2 : ImportReset(k)
   \/ Restart
   \/ Recover
 
